@@ -219,3 +219,40 @@ def run(ctx):
             if wn and rn:
                 ctx.oblige(wn == rn, "C04.7", "%s:name#%d" % (what, k),
                            "position %d is written from `%s` and read back as `%s`" % (k, wn, rn), ctx.body(dec).file)
+
+    # ---- clause 8: id registries are append-only ------------------------------------------------------------------------
+    # Label / relationship-type ids and internal node ids are *positions* (index into LabelInterner.i2s, IdMap.i2e / i2l) that are written
+    # into WAL records, node-table pages, segments and property keys.  They keep their meaning across reopen only if the registries never
+    # shrink or reorder: push / insert only (a node's label list may be edited in place through get_mut, the outer vectors may not).
+    from ..mirutil import recv_field as _rf
+    ctx.rule("C04.8", "LabelInterner.s2i / i2s and IdMap.i2e / i2l only grow (push / insert; in-place edits of a node's label list through get_mut): no remove / truncate / clear / swap, no whole assignment outside load")
+    REG = {("s2i", "nervusdb_storage::label_interner::LabelInterner"), ("i2s", "nervusdb_storage::label_interner::LabelInterner"),
+           ("i2e", "nervusdb_storage::idmap::IdMap"), ("i2l", "nervusdb_storage::idmap::IdMap")}
+    GROW = ("push", "insert", "extend", "reserve", "get_mut", "deref_mut", "index_mut", "entry", "or_insert", "iter_mut")
+    n8 = 0
+    for i, b in sorted(F.bodies.items()):
+        if not i.startswith("nervusdb_storage::") or "::tests::" in i:
+            continue
+        k = 0
+        for c in b.calls():
+            if not c.args or c.args[0][0] not in ("c", "m"):
+                continue
+            f_ = _rf(b, c)
+            if not f_ or tuple(f_) not in REG or not b.local_ty(c.args[0][1][0]).startswith("&mut"):
+                continue
+            n8 += 1
+            short = c.name.split("::")[-1]
+            ctx.instance("C04.8", "%s: %s.%s" % (i.split("::", 1)[1], f_[0], short))
+            ctx.oblige(short in GROW, "C04.8", "%s:%s.%s#%d" % (b.root or i, f_[0], short, k),
+                       "the id registry `%s` shrinks or is reordered (`%s`): ids already written to the log, the node table, segments and property keys change their meaning" % (f_[0], short), c.loc())
+            k += 1
+        for blk in b.blocks:
+            if blk["c"]:
+                continue
+            for st in blk["s"]:
+                if st[0] == "a" and st[1][1] and isinstance(st[1][1][-1], list) and st[1][1][-1][0] == "f" and (st[1][1][-1][2], st[1][1][-1][3]) in REG:
+                    n8 += 1
+                    okw = i.endswith(("::load", "::new", "::default", "::from_snapshot", "::from_parts"))
+                    ctx.instance("C04.8", "%s assigns %s as a whole" % (i.split("::", 1)[1], st[1][1][-1][2]))
+                    ctx.oblige(okw, "C04.8", "%s:%s-replaced" % (b.root or i, st[1][1][-1][2]), "an id registry is replaced as a whole outside construction / load", "%s:%d" % (b.file, st[3]))
+    ctx.floor("C04.8", "mutating accesses to the id registries", n8, 10)
